@@ -202,7 +202,7 @@ FNQ = ['fst.fst.FST.loc', 'fst.fst.FST.bloc', 'fst.fst.FST.pars', 'fst.fst.FST.o
        'fst.fst_core._offset', 'fst.fst_core._set_ast', 'fst.fst_core._make_fst_tree', 'fst.fst_core._unmake_fst_tree', 'fst.fst_trivia._getput_line_comment',
        'fst.fst.FST.put_docstr']
 CELLS = toffset.putsrc_offset_cells('T1', True, ('tuple', 'deco2'))
-_Q = {('list4c', 'put_slice', 2), ('ifbody3', 'put_slice', 1), ('funcbody', 'insert', 1), ('dict3', 'view_delslice', 1), ('modbody', 'put_slice', 0)}
+_Q = {('list4c', 'put_slice', 2), ('ifbody3', 'put_slice', 1), ('funcbody', 'insert', 1), ('dict3', 'view_delslice', 1), ('modbody', 'put_slice', 0), ('uni_targets', 'put_slice', 1), ('uni_samebytes', 'view_setitem', 1)}
 for _c in pc.CARRIERS:
     for _op, _k in (('put_slice', 2), ('put_slice', 1), ('put_slice', 0), ('insert', 1), ('view_delslice', 1), ('view_setitem', 1)):
         CELLS.append(Cell(f'P1.{_c.id}.{_op}[{_k}]', _mk_edit(_c.id, _op, _k), 'P', pc.FN_EDIT + FNQ,
